@@ -30,6 +30,8 @@ def run(ctx):
     X.rule_D1c_complete(ctx, typer, "DotExporter")
     ctx.floor("D1c", 2)
     X.rule_D3_escape(ctx, typer, "DotExporter", quoted=True)
+    from .common import rule_format_templates
+    rule_format_templates(ctx, typer, [f for f in ctx.p.all_funcs if f.module.relpath in FILES], "D6")
     X.rule_D4_ids(ctx, typer, "UniqueDotExporter")
     X.rule_D5_structure(ctx, typer, "DotExporter", closing="}", writer="to_dotfile")
     X.rule_D5_legacy(ctx)
